@@ -18,6 +18,9 @@ def make_processor(env):
         def __init__(self):
             self.log = []  # (hook, source/target relation, destination engine | None, name | None)
             self.tables = []
+            self.fail_at = None  # fault injection: the hook call with this index (counted from now) raises InjectedFault
+            self.fault_fired = False
+            self.completed = set()  # indices into log of hook calls that returned a payload
 
         # -- helpers
         def fetch(self, rel):
@@ -40,19 +43,38 @@ def make_processor(env):
                 return sql.Payload(table, columns_available={c: table.c[name_of(c)] for c in cols})
             return iteration.RowSequence(rows)
 
+        def _maybe_fail(self):
+            if self.fail_at is not None:
+                if self.fail_at <= 0:
+                    self.fail_at = None
+                    self.fault_fired = True
+                    from .env import InjectedFault
+
+                    raise InjectedFault("injected fault in a Processor hook")
+                self.fail_at -= 1
+
         # -- hooks
         def transfer(self, source, destination, materialize_as):
+            self._maybe_fail()
             self.log.append(("transfer", source, destination, materialize_as))
+            idx = len(self.log) - 1
             rows = self.fetch(source)
-            return self.payload_for(destination, source.columns, rows, materialize_as)
+            payload = self.payload_for(destination, source.columns, rows, materialize_as)
+            self.completed.add(idx)
+            return payload
 
         def materialize(self, target, name):
+            self._maybe_fail()
             self.log.append(("materialize", target, None, name))
+            idx = len(self.log) - 1
             eng = target.engine
             if isinstance(eng, sql.Engine):
                 rows = self.fetch(target)
-                return self.payload_for(eng, target.columns, rows, name)
-            return eng.execute(target).materialized()
+                payload = self.payload_for(eng, target.columns, rows, name)
+            else:
+                payload = eng.execute(target).materialized()
+            self.completed.add(idx)
+            return payload
 
     return RealProcessor()
 
